@@ -298,6 +298,23 @@ impl SemanticState {
             }
         }
 
+        // Every impl block must belong to a type defined in its module: the functions of a
+        // block for anything else (an enum, an extern type, an unknown name) would be dropped.
+        let mut impl_paths: Vec<&ItemPath> =
+            self.modules.values().flat_map(|m| m.impls.keys()).collect();
+        impl_paths.sort();
+        for impl_path in impl_paths {
+            let is_defined_type = self.type_registry.get(impl_path).is_some_and(|item| {
+                item.category() == ItemCategory::Defined
+                    && item.resolved().is_some_and(|r| r.inner.as_type().is_some())
+            });
+            if !is_defined_type {
+                anyhow::bail!(
+                    "impl block for `{impl_path}`, which is not a type defined in the same module"
+                );
+            }
+        }
+
         // Now that we've finished resolving all of our types, we should be able
         // to resolve our extern values.
         for module in self.modules.values_mut() {
